@@ -1,5 +1,6 @@
 // Engine A — object-history simulator: shared declarations.
 #pragma once
+#include <functional>
 #include "../simrt/simrt.h"
 #include "kinds.h"
 
@@ -32,6 +33,7 @@ struct Op {
     uint8_t fault = F_NONE;
     uint32_t fa = 0;          // F_ALLOC: index (1-based) of the SUT allocation of this op that fails
     uint32_t fc = 0;          // F_CORRUPT: (corruption kind) | (position selector << 8)
+    uint8_t thr = 0;          // who executes the step: 0 the main thread, 1-2 one of the long-lived helper threads (handed over and joined: properly synchronised)
 };
 
 struct Knobs {
@@ -132,7 +134,7 @@ enum Probe {
     PR_RESULT_EQUALS_SOURCE, PR_SELF_REFERENTIAL, PR_SOURCE_MUTATED_AFTER_DERIVE, PR_RESULT_DESTROYED_BEFORE_SOURCE,
     PR_THROW_WITH_HEAP_TARGET, PR_THROW_WITH_HEAP_RVALUE, PR_THROW_THEN_REUSED,
     PR_FAULT_ALLOCATE_AFTER_RELEASE, PR_FAULT_VECTOR_GROWTH, PR_FAULT_EXCEPTION_CTOR, PR_FAULT_TARGET_EMPTY_AFTER, PR_FAULT_TARGET_OLD_AFTER,
-    PR_FAULT_STREAM_GROWTH, PR_FAULT_STD_FUNCTION, PR_SS_TOPPED_UP, PR_RETAINED_BY_STATIC,
+    PR_FAULT_STREAM_GROWTH, PR_FAULT_STD_FUNCTION, PR_SS_TOPPED_UP, PR_RETAINED_BY_STATIC, PR_STEP_ON_HELPER_THREAD,
     PR__COUNT
 };
 const char *probe_name(int i);
@@ -210,26 +212,36 @@ void set_viol(Ctx &c, const char *cls, const std::string &msg);
 void update_fatal_ctx(const Ctx &c);   // run.cpp: refresh the FATAL-line context with the current site
 uint64_t op_budget(const Ctx &c);
 // run f() as library code under the heap fault plan and the step watchdog; classify what it throws
+// A history is a sequence of operations; nothing says one thread executes all of them.  Steps marked thr = 1, 2 are executed by one of two
+// long-lived helper threads of the worker process: the step is handed over and waited for, so the hand-over is properly synchronised and the
+// history stays a sequence - but whatever the library keeps per thread (thread_local scratch, memos keyed by an object's address) now sees
+// objects that other threads have changed in between.  core.cpp: on_helper().
+void on_helper(int k, const std::function<void()> &fn);
 template <class F> ExcKind run_sut(Ctx &c, const Op &op, F &&f) {
     c.returned_ref = nullptr;
-    simrt::heap_op_begin((op.fault & F_ALLOC) ? op.fa : 0);
-    simrt::clock_arm(op_budget(c));
-    ExcKind ex = EX_NONE;
-    {
-        simrt::SutScope sut;
-        try { f(); }
-        catch (const std::bad_alloc &) { ex = EX_BAD_ALLOC; }
-        catch (const ST::unicode_error &) { ex = EX_UNICODE; }
-        catch (const ST::codec_error &) { ex = EX_CODEC; }
-        catch (const ST::bad_format &) { ex = EX_BAD_FORMAT; }
-        catch (const std::out_of_range &) { ex = EX_OUT_OF_RANGE; }
-        catch (const std::invalid_argument &) { ex = EX_INVALID_ARG; }
-        catch (...) { ex = EX_OTHER; }
-    }
-    uint64_t used = simrt::clock_disarm();
-    simrt::heap_op_end();
-    c.fired = simrt::heap_fault_fired();
-    c.op_allocs = simrt::heap_op_allocs();
+    ExcKind ex = EX_NONE; uint64_t used = 0; bool fired = false; uint32_t allocs = 0;
+    auto body = [&] {
+        simrt::heap_op_begin((op.fault & F_ALLOC) ? op.fa : 0);      // (fault plan and counters are per thread)
+        simrt::clock_arm(op_budget(c));
+        {
+            simrt::SutScope sut;
+            try { f(); }
+            catch (const std::bad_alloc &) { ex = EX_BAD_ALLOC; }
+            catch (const ST::unicode_error &) { ex = EX_UNICODE; }
+            catch (const ST::codec_error &) { ex = EX_CODEC; }
+            catch (const ST::bad_format &) { ex = EX_BAD_FORMAT; }
+            catch (const std::out_of_range &) { ex = EX_OUT_OF_RANGE; }
+            catch (const std::invalid_argument &) { ex = EX_INVALID_ARG; }
+            catch (...) { ex = EX_OTHER; }
+        }
+        used = simrt::clock_disarm();
+        simrt::heap_op_end();
+        fired = simrt::heap_fault_fired(); allocs = simrt::heap_op_allocs();
+    };
+    if (op.thr) { on_helper(op.thr, body); if (c.stats) c.stats->probe[PR_STEP_ON_HELPER_THREAD]++; c.run_probe[PR_STEP_ON_HELPER_THREAD] = true; }
+    else body();
+    c.fired = fired;
+    c.op_allocs = allocs;
     if (c.stats) { c.stats->steps += used; c.stats->exceptions[ex]++; }
     return ex;
 }
